@@ -430,3 +430,9 @@ Definition handler_final (r : resp) (order : list str) : hmap :=
    does the response the client received end like a complete one? *)
 Definition handler_finishes_message (copy_failed : bool) : bool :=
   if copy_failed then negb hw_copy_error_aborts else true.
+
+(* the client side of a persistent connection: handle() defers req.Body.Close(), which consumes what is
+   left of the request body whether or not a round trip happened (a request the proxy refuses itself —
+   407, 403 — is answered without one); the next request head is read from what remains *)
+Definition after_exchange (unread_body rest : str) : str :=
+  if hd_closes_request_body then rest else unread_body ++ rest.
